@@ -15,6 +15,8 @@ type zzFSState struct {
 	snapTmp  []byte
 	tmpExist bool
 	crashed  bool
+	snapAll  map[string]string
+	initial  map[string]bool
 }
 
 var zzFS zzFSState
@@ -73,6 +75,20 @@ func zzFSInit(spec string) string {
 		}
 		os.WriteFile(zzLogPath(), buf, 0644)
 	}
+	if vals["fs.old.exists"] == "true" {
+		var buf []byte
+		for i := 0; i < m; i++ {
+			n := "fs.old#" + strconv.Itoa(i)
+			if vals[n+".pres"] != "true" {
+				continue
+			}
+			var ev Event
+			zzHavoc(n+".ev", &ev, "0")
+			line, _ := json.Marshal(ev)
+			buf = append(append(buf, line...), '\n')
+		}
+		os.WriteFile(filepath.Join(zzW.dir, oldEventsFileName), buf, 0644)
+	}
 	if vals["fs.lock.exists"] == "true" {
 		os.WriteFile(filepath.Join(zzW.dir, "lock"), nil, 0644)
 	}
@@ -82,6 +98,12 @@ func zzFSInit(spec string) string {
 			content = []byte(strings.Repeat("{\"type\":\"stale\",\"ts\":\"x\",\"data\":{}}\n", 40))
 		}
 		os.WriteFile(zzLogPath()+".tmp", content, 0644)
+	}
+	zzFS.initial = map[string]bool{}
+	if ents, err := os.ReadDir(zzW.dir); err == nil {
+		for _, e := range ents {
+			zzFS.initial[e.Name()] = true
+		}
 	}
 	w := zzW
 	w.savedOut, w.savedErr, w.savedIn = os.Stdout, os.Stderr, os.Stdin
@@ -98,6 +120,13 @@ func zzFSInit(spec string) string {
 // then rolls the files back to what a kill at the scenario's effect index would have left.
 func zzProcBegin(mayCrash bool) {
 	zzFS.proc++
+	zzFS.snapAll = map[string]string{}
+	if ents, err := os.ReadDir(zzW.dir); err == nil {
+		for _, e := range ents {
+			b, _ := os.ReadFile(filepath.Join(zzW.dir, e.Name()))
+			zzFS.snapAll[e.Name()] = string(b)
+		}
+	}
 	zzFS.snapLog, _ = os.ReadFile(zzLogPath())
 	tmp, err := os.ReadFile(zzLogPath() + ".tmp")
 	zzFS.snapTmp, zzFS.tmpExist = tmp, err == nil
@@ -314,4 +343,19 @@ func zzStoreEffects() int {
 func zzHistoryPreserved() bool {
 	now, _ := os.ReadFile(zzLogPath())
 	return strings.HasPrefix(string(now), string(zzFS.snapLog))
+}
+
+// zzFileEffects natively: 0 when the file is byte-identical (or as absent) as when the process began.
+func zzFileEffects(path string) int {
+	was, had := zzFS.snapAll[filepath.Base(path)]
+	now, err := os.ReadFile(path)
+	if had != (err == nil) || was != string(now) {
+		return 1
+	}
+	return 0
+}
+
+// zzFileExisted natively: the file was there when the scenario's world was built.
+func zzFileExisted(path string) bool {
+	return zzFS.initial[filepath.Base(path)]
 }
